@@ -114,6 +114,9 @@ def enumerated(tier):
         for kind in ("ConnectionError", "http"):
             for rel in ("in_command", "at_join", "join+0.3"):
                 yield {"release": rel, "outcome": {"kind": kind, "status": 503}, "command": cmd, "state": "clean"}
+    # every command of both groups against a server that never answers (the grace period is per command group)
+    for cmd in COMMANDS:
+        yield {"release": "never", "outcome": {"kind": "tag", "tag": "99.0"}, "command": cmd, "state": "clean"}
     if tier == "thorough":
         for rel in RELEASES:
             for kind in ("ConnectionError", "not_json", "no_tag"):
